@@ -1,6 +1,7 @@
 import AcqVerif.Channel.Translated
 import AcqVerif.Channel.InvStep
 import AcqVerif.Props.C02
+import AcqVerif.Props.C01
 /-!
 # The translated `channel.c` refines the model, history by history
 
@@ -270,6 +271,44 @@ end AcqVerif.Channel.Refine
 
 namespace AcqVerif.Channel.Refine
 open AcqVerif AcqVerif.Channel AcqVerif.Channel.Translated AcqVerif.Generated.ChannelC
+
+theorem crun_data {cs : CSys} {s : Sys} {g : Ghost} (h : Sim cs s) (hi : Inv s g) (ops : List Op) (hwf : wfRun s ops = true) :
+    (crun cs ops).ch.data = cs.ch.data := by
+  induction ops generalizing cs s g with
+  | nil => rfl
+  | cons op ops ih =>
+    simp only [wfRun, Bool.and_eq_true] at hwf
+    obtain ⟨h1, _, h3⟩ := refine_step h hi op hwf.1
+    simp only [crun]
+    rw [ih h1 (hi.step op hwf.1) hwf.2, h3]
+
+/-- **C01.1 / C01.5 / C01.6 for the translated code** — after any well-formed history from a fresh channel, `channel_read_map` for a
+registered reader that is not mapped returns status `Channel_Ok` and a region `[b, e)` that lies inside the buffer; the region is empty
+only if the reader is drained (its stream position is the number of bytes committed so far) -/
+theorem read_map_translated (cap data : Nat) (hd : 0 < data) (ops : List Op) (hwf : wfRun (Sys.init cap) ops = true) (i : Nat)
+    (hwfi : (Op.rmap i).wf (run (Sys.init cap) ops) = true) (b e st : Nat)
+    (hr : (cstep (crun (CSys.init cap data) ops) (.rmap i)).2 = .slice b e st) :
+    st = 0 ∧ b ≤ e ∧ (b < e → data ≤ b ∧ e ≤ data + cap) ∧
+      (b = e → nth (run (Sys.init cap) ops).idx i = (run (Sys.init cap) ops).total) := by
+  have hs := refine_history cap data hd ops hwf
+  have hreach : Reachable cap (run (Sys.init cap) ops) (grun (Sys.init cap) {} ops) := ⟨⟨ops, hwf, rfl, rfl⟩⟩
+  obtain ⟨_, ho, _⟩ := refine_step hs hreach.inv (.rmap i) hwfi
+  have hdat := crun_data (Sim.init cap data hd) (Inv.init cap) ops hwf
+  obtain ⟨beg, len, e1, e2, _, _, e5, _⟩ := C01.read_map_spec hreach i hwfi
+  rw [hr, e1] at ho
+  simp only [OutRel] at ho
+  obtain ⟨o1, o2, o3⟩ := ho
+  rw [hdat] at o3
+  have hd' : (CSys.init cap data).ch.data = data := rfl
+  rw [hd'] at o3
+  refine ⟨o2, by omega, ?_, ?_⟩
+  · intro hlt
+    have : len ≠ 0 := by omega
+    have := o3 this
+    omega
+  · intro heq
+    have : len = 0 := by omega
+    exact e2 this
 
 /-! ## non-vacuity: a concrete history with a wrap, a lap change and partial consumption, run through the translated functions -/
 def demoOps : List Op :=
